@@ -22,8 +22,8 @@ static const PropInfo PROPS[] = {
     {"C03", "HIST", "exploration", "property values follow their entities"},
     {"C04", "HIST", "exploration", "garbage collection preserves the logical mesh"},
     {"C05", "HIST", "exploration", "iterators and circulators"},
-    {"C06", "STOR", "exploration", "native formats round-trip"},
-    {"C07", "STOR", "exploration", "readers are memory-safe and terminate"},
+    {"C06", "HIST", "exploration", "native formats round-trip"},
+    {"C07", "HIST", "exploration", "readers are memory-safe and terminate"},
     {"C08", "HIST", "exploration", "orientation algebra"},
     {"C09", "HIST", "exploration", "rotational order around an edge"},
     {"C10", "HIST", "exploration", "lookups are sound and complete"},
@@ -34,7 +34,7 @@ static const PropInfo PROPS[] = {
     {"C15", "HIST", "exploration", "tetrahedral kernel"},
     {"C16", "HIST", "exploration", "hexahedral kernel"},
     {"C17", "HIST", "exploration", "index swaps are pure relabelings"},
-    {"C18", "STOR", "fault_enumeration", "OVMB detects truncation, framing corruption, stream failure"},
+    {"C18", "HIST", "fault_enumeration", "OVMB detects truncation, framing corruption, stream failure"},
     {"C20", "FROZEN", "exploration", "concurrent read-only use"},
 };
 const PropInfo *prop_info(const std::string &id) { for (auto &p : PROPS) if (id == p.id) return &p; return nullptr; }
@@ -45,6 +45,7 @@ World *make_world(const std::string &prop) {
     return it == WorldReg::tab().end() ? nullptr : it->second();
 }
 }  // namespace sim
+namespace sim { std::string g_scratch_dir = "/verif/.cache/tmp"; }
 using namespace sim;
 
 static double now_s() { return std::chrono::duration<double>(std::chrono::steady_clock::now().time_since_epoch()).count(); }
@@ -157,6 +158,8 @@ static ChildOut run_in_child(World *w, const Plan &plan, double timeout_s = 60) 
         size_t p = out.stderr_txt.find("ERROR:");
         if (p == std::string::npos) p = out.stderr_txt.find("runtime error");
         out.detail = one_line(p == std::string::npos ? out.stderr_txt.substr(0, 300) : out.stderr_txt.substr(p, 400));
+        size_t fn = out.stderr_txt.rfind("OVMSIM-FAULT ");
+        if (fn != std::string::npos) out.detail = one_line(out.stderr_txt.substr(fn, out.stderr_txt.find('\n', fn) - fn)) + " :: " + out.detail;
         out.loghash = fnv1a(out.cls);
     }
     return out;
@@ -166,7 +169,7 @@ static ChildOut run_in_child(World *w, const Plan &plan, double timeout_s = 60) 
 static Plan shrink_plan(World *w, Plan plan, const std::string &cls, long &trials) {
     double t0 = now_s();
     auto fails = [&](const Plan &p) {
-        if (trials >= 600 || now_s() - t0 > 40) return false;
+        if (trials >= 400 || now_s() - t0 > 20) return false;
         ++trials;
         ChildOut c = run_in_child(w, p, 30);
         return c.violation && c.cls == cls;
@@ -367,7 +370,7 @@ static int cmd_run(int argc, char **argv) {
     mkdir(replays.c_str(), 0755);
     int gated = 0;
     for (auto &c : cands) {
-        if (gated >= 12) break;
+        if (gated >= 10 || now_s() - t_start > budget + (thorough ? 900 : 240)) break;
         if (!c.cls.empty() && reported.count(c.cls)) continue;
         uint64_t seed = run_seed(master, prop, c.index);
         Plan plan = w->generate(prop, seed, thorough);
@@ -381,7 +384,10 @@ static int cmd_run(int argc, char **argv) {
         }
         if (reported.count(a.cls)) continue;
         long trials = 0;
-        Plan small = shrink_plan(w, plan, a.cls, trials);
+        const Known *hit0 = nullptr;
+        for (auto &k : kn) if (k.cls == a.cls && (k.prop.empty() || k.prop == prop)) hit0 = &k;
+        bool post_budget_left = now_s() - t_start < budget + (thorough ? 600 : 150);
+        Plan small = (hit0 || !post_budget_left) ? plan : shrink_plan(w, plan, a.cls, trials);
         ChildOut fin = run_in_child(w, small);
         if (!fin.violation || fin.cls != a.cls) { small = plan; fin = a; }
         small.expect_class = a.cls;
@@ -525,6 +531,8 @@ int main(int argc, char **argv) {
         }
     }
     signal(SIGPIPE, SIG_IGN);
+    if (const char *e = getenv("OVMSIM_SCRATCH")) g_scratch_dir = e;
+    mkdir(g_scratch_dir.c_str(), 0755);
     if (argc < 2) { fprintf(stderr, "usage: ovmsim run|replay|selftest ...\n"); return 2; }
     std::string cmd = argv[1];
     if (cmd == "run") return cmd_run(argc, argv);
